@@ -1,2 +1,5 @@
 import Properties.C06
 import Properties.C07
+import Properties.DrawBounds
+import Properties.C05
+import Properties.C04
